@@ -199,6 +199,12 @@ func (c *fragCtx) assignedIn(stmts []ast.Stmt) (vars []string, hasRet bool) {
 					if id, ok := ie.X.(*ast.Ident); ok {
 						add(id)
 					}
+					if fv, ok := c.fieldOf(ie.X); ok {
+						add(&ast.Ident{Name: fv})
+					}
+				}
+				if fv, ok := c.fieldOf(l); ok {
+					add(&ast.Ident{Name: fv})
 				}
 			}
 		case *ast.IncDecStmt:
@@ -386,6 +392,9 @@ func (c *fragCtx) stmts(list []ast.Stmt, k func() string) string {
 			if c.noRes && len(c.frames) == 0 {
 				return c.ok("st_")
 			}
+			if c.method && len(c.results) == 0 && len(c.frames) == 0 {
+				return c.ok(c.methodReturn(&ast.ReturnStmt{}))
+			}
 			return c.fail("control reaches the end of the function without return")
 		}
 		return k()
@@ -402,6 +411,8 @@ func (c *fragCtx) stmts(list []ast.Stmt, k func() string) string {
 	case *ast.ReturnStmt:
 		var v string
 		switch {
+		case c.method:
+			v = c.retValue(c.methodReturn(x))
 		case !c.retErr && len(x.Results) == 1:
 			v = c.retValue(c.rhs(x.Results[0], c.typeOf(x.Results[0])))
 		case c.retErr && len(x.Results) == 2:
@@ -424,7 +435,15 @@ func (c *fragCtx) stmts(list []ast.Stmt, k func() string) string {
 			return c.trFor(l, x.Label.Name, list[1:], k)
 		}
 		return c.fail("label on a non-loop")
+	case *ast.DeferStmt:
+		if c.isMutexCall(x.Call) {
+			return rest()
+		}
+		return c.fail("defer")
 	case *ast.ExprStmt:
+		if c.isMutexCall(x.X) {
+			return rest()
+		}
 		if c.isPanicCall(x) {
 			return c.excTerm("panic")
 		}
@@ -512,10 +531,11 @@ func (c *fragCtx) assign(x *ast.AssignStmt, rest func() string) string {
 		return c.fail("multiple assignment")
 	}
 	if ie, ok := x.Lhs[0].(*ast.IndexExpr); ok {
-		id, ok1 := ie.X.(*ast.Ident)
+		vn, ok1 := c.varOf(ie.X)
 		if !ok1 || x.Tok != token.ASSIGN {
 			return c.fail("indexed assignment")
 		}
+		id := &ast.Ident{Name: vn}
 		n := lv(id.Name)
 		switch t := c.typeOf(ie.X).Underlying().(type) {
 		case *types.Array: // result[i] = append(result[i], v) on a pair
@@ -544,8 +564,13 @@ func (c *fragCtx) assign(x *ast.AssignStmt, rest func() string) string {
 		}
 		return c.fail("indexed assignment")
 	}
-	id, ok := x.Lhs[0].(*ast.Ident)
-	if !ok {
+	var id *ast.Ident
+	if vn, isVar := c.varOf(x.Lhs[0]); isVar {
+		id = &ast.Ident{Name: vn}
+	} else {
+		return c.fail("assignment target")
+	}
+	if _, isField := c.fieldOf(x.Lhs[0]); isField && x.Tok == token.DEFINE {
 		return c.fail("assignment target")
 	}
 	if id.Name == "_" {
